@@ -324,6 +324,8 @@ type scenario struct {
 	// segments separated by restarts; Clean[i] = segment i ends with a clean shutdown
 	Segs  [][]kOp `json:"segments"`
 	Clean []bool  `json:"clean_shutdown,omitempty"`
+	// known-class stream whose defect is a request that never returns: class reported on a time-out
+	HangClass string `json:"hang_class,omitempty"`
 
 	res  []kRes
 	ids  map[int]string
@@ -354,7 +356,7 @@ func (sc *scenario) run(self, work string, idx int) {
 		go func() { done <- cmd.Wait() }()
 		select {
 		case <-done:
-		case <-time.After(20 * time.Second):
+		case <-time.After(map[bool]time.Duration{true: 3 * time.Second, false: 20 * time.Second}[sc.HangClass != ""]):
 			_ = cmd.Process.Kill()
 			sc.err = fmt.Sprintf("worker timed out in segment %d", i)
 			sc.hung = i
@@ -1611,6 +1613,8 @@ func runStores(cfg vhlib.Config, r *vhlib.Rng, sum *vhlib.Summary) {
 	scs = append(scs, genAdb(r.Fork(), 6*mult, true)...)
 	// known-class streams
 	scs = append(scs, genDash(r.Fork(), 8*mult, true)...)
+	scs = append(scs, &scenario{Store: "dash", Class: "type_confusion_cycle", Orgs: []int64{0}, HangClass: "dashboard_update_with_folder_id_creates_parent_cycle_and_hangs",
+		Segs: [][]kOp{{{Op: "fcreate", Org: 0, Name: "F", NewRef: 1}, {Op: "dupdate", Org: 0, Ref: 1, Name: "F", Parent: 1, Desc: "d"}, {Op: "list", Org: 0}}}})
 	scs = append(scs, genAlias(r.Fork(), 6*mult, "alias_restart")...)
 	scs = append(scs, genAlias(r.Fork(), 6*mult, "alias_shutdown")...)
 
@@ -1640,6 +1644,12 @@ func runStores(cfg vhlib.Config, r *vhlib.Rng, sum *vhlib.Summary) {
 	}
 	buckets := map[string]*bucket{}
 	for i, sc := range scs {
+		if sc.err != "" && sc.hung >= 0 && sc.HangClass != "" {
+			sum.Fail(sc.HangClass, fmt.Sprintf("the worker did not answer within 3 s in segment %d (request loops forever)", sc.hung), map[string]interface{}{"scenario": sc})
+			sum.Eval(sc.Store+"/"+sc.Class, true)
+			sum.Count("store/" + sc.Store + "/" + sc.Class)
+			continue
+		}
 		if sc.err != "" {
 			if os.Getenv("C20_DEBUG") != "" {
 				fmt.Fprintf(os.Stderr, "scenario %d: %s\n%s\n", i, sc.err, jb(sc))
@@ -1675,7 +1685,7 @@ func runStores(cfg vhlib.Config, r *vhlib.Rng, sum *vhlib.Summary) {
 			sum.Sample(map[string]interface{}{"store": sc.Store, "stream": sc.Class, "ops": opSig(fl)})
 		}
 		// the cross-tenant stream has no counterpart in the map model (ids are global there): Go oracle only
-		if sc.Class == "cross_tenant_by_id" || (v.fails > 0 && sc.Store != "alias") {
+		if sc.Class == "cross_tenant_by_id" || sc.Class == "type_confusion_cycle" || (v.fails > 0 && sc.Store != "alias") {
 			continue
 		}
 		b := buckets[sc.Store]
